@@ -44,3 +44,32 @@ fn terms(depth: usize) -> Vec<T> {
         }
     }
 }
+
+// ---- Dictionary::merge of COMPATIBLE dictionaries (one is a prefix of the other), then more terms arrive ---------------
+#[test] fn w__Dictionary_merge__any() {
+    let terms = ["rdf:type", "ex:Sensor", "ex:s1", "ex:temperature", "21.5", "ex:s2"];
+    let fresh = ["new:a", "new:b", "new:c"];
+    for k in 0..=terms.len() { for j in 0..=k { for direction in 0..2 {
+        let mut big = Dictionary::new();
+        for t in &terms[..k] { big.encode(t); }
+        let mut small = Dictionary::new();
+        for t in &terms[..j] { small.encode(t); }
+        // direction 0: the smaller dictionary is merged into the larger one; 1: the larger into the smaller
+        let mut target = if direction == 0 { big.clone() } else { small.clone() };
+        let source = if direction == 0 { &small } else { &big };
+        target.merge(source);
+        let ctx = format!("a dictionary of the first {} terms merged {} one of the first {} terms", if direction == 0 { k } else { j }, "with", if direction == 0 { j } else { k });
+        let mut expected: Vec<(u32, String)> = terms[..k].iter().enumerate().map(|(i, t)| (i as u32, t.to_string())).collect();
+        for (id, t) in &expected {
+            assert!(target.decode(*id) == Some(t.as_str()), "{}: identifier {} decodes to {:?}, expected {:?}", ctx, id, target.decode(*id), t);
+            assert!(target.encode(t) == *id, "{}: term {:?} no longer encodes to its identifier {}", ctx, t, id);
+        }
+        // identifiers handed out afterwards are fresh, earlier ones keep their terms
+        for t in fresh {
+            let id = target.encode(t);
+            for (other_id, other) in &expected { assert!(*other_id != id, "{}: the new term {:?} received identifier {}, which already denotes {:?}", ctx, t, id, other); }
+            expected.push((id, t.to_string()));
+            for (eid, et) in &expected { assert!(target.decode(*eid) == Some(et.as_str()), "{}: after encoding {:?}: identifier {} decodes to {:?}, expected {:?}", ctx, t, eid, target.decode(*eid), et); }
+        }
+    }}}
+}
